@@ -115,22 +115,37 @@ func vxPoolConns(s *Session) []*Conn {
 }
 
 func vxGoroutineDump() string {
-	buf := make([]byte, 1<<20)
+	buf := make([]byte, 4<<20)
 	n := runtime.Stack(buf, true)
-	var keep []string
+	idle := []string{"(*Conn).heartBeat(", "(*controlConn).heartBeat(", "(*eventDebouncer).flusher(", "(*refreshDebouncer).flusher(", "(*writeCoalescer).writeFlusherImpl("}
+	var keep, rest []string
 	for _, g := range strings.Split(string(buf[:n]), "\n\n") {
-		if strings.Contains(g, "gocql.(*") && !strings.Contains(g, "vxGoroutineDump") {
-			lines := strings.Split(g, "\n")
-			if len(lines) > 9 {
-				lines = lines[:9]
-			}
-			keep = append(keep, strings.Join(lines, "\n"))
+		if !strings.Contains(g, "gocql.(*") || strings.Contains(g, "vxGoroutineDump") {
+			continue
 		}
-		if len(keep) >= 6 {
-			break
+		lines := strings.Split(g, "\n")
+		if len(lines) > 13 {
+			lines = lines[:13]
+		}
+		txt := strings.Join(lines, "\n")
+		isIdle := false
+		if len(lines) > 1 {
+			for _, m := range idle {
+				if strings.Contains(lines[1], m) {
+					isIdle = true
+				}
+			}
+		}
+		if isIdle {
+			rest = append(rest, txt)
+		} else {
+			keep = append(keep, txt)
 		}
 	}
-	return strings.Join(keep, "\n--\n")
+	if len(keep) > 10 {
+		keep = keep[:10]
+	}
+	return fmt.Sprintf("%s\n-- (%d more goroutines idle in heartbeat/flusher loops)", strings.Join(keep, "\n--\n"), len(rest))
 }
 
 func vxRunC06(c *vxC06Case, k *vstats.Case) error {
